@@ -1,10 +1,14 @@
 #!/bin/sh
-# harvest.sh Cxx : copy the sub-agent's deliverables /tmp/mut/Cxx/_mut/k/ into /verif/seeded/Cxx-k/
-p=$1
+# harvest.sh Cxx [round] : copy a sub-agent's deliverables into /verif/seeded/Cxx-k/
+#   round 1: /tmp/mut/Cxx/_mut/{1,2}  -> Cxx-1, Cxx-2 ;  round 2: /tmp/mut2/Cxx/_mut/{1,2} -> Cxx-3, Cxx-4 ; round r: /tmp/mut<r>/...
+p=$1; r=${2:-1}
+if [ "$r" = 1 ]; then base=/tmp/mut; else base=/tmp/mut$r; fi
+off=$(( (r-1)*2 ))
 for k in 1 2 3; do
-  d=/tmp/mut/$p/_mut/$k
+  d=$base/$p/_mut/$k
   [ -f $d/patch.diff ] || continue
-  mkdir -p /verif/seeded/$p-$k
-  cp $d/patch.diff $d/demo.py $d/meta.json /verif/seeded/$p-$k/
+  t=/verif/seeded/$p-$((k+off))
+  mkdir -p $t
+  cp $d/patch.diff $d/demo.py $d/meta.json $t/
+  echo $p-$((k+off))
 done
-ls /verif/seeded | grep "^$p-"
